@@ -64,7 +64,7 @@ UNITS = [
         assert(start_of(blobs@, blobs@.len() as int) == body_end);
         assert(data.data@ =~= data0.subrange(0, body_end));
     }"""),
-             ("before", "let blob_id = blob.id;", """        proof {
+             ("loop_start", "1", """        proof {
             let k = it.index@;
             lemma_start_mono(blobs@, k, k + 1);
             lemma_start_mono(blobs@, k + 1, blobs@.len() as int);
@@ -87,5 +87,39 @@ UNITS = [
 """},
          ),
 ]
+UNITS += [
+    Unit(name="index_offsets_check", file=CK, kind="block", within="fn check_packs<S: Open>(",
+         anchor="let mut expected_offset: u32 = 0;", block_end="@for_end",
+         block_sig="fn index_offsets_check(p: IndexPack, blob_type: BlobType, collector: &CheckResultsCollector)",
+         block_tail="",
+         functions=["commands::check::check_packs (per-pack offset/type consistency loop of the index)"],
+         rewrites=[
+             Rw("collector.add_error", "", kind="dropargs", count=None, why="CheckError payload dropped; reporting kept"),
+             Rw("blobs.sort_unstable();", "vsort_blobs(&mut blobs);", why="slice::sort_unstable (permutation, ordered by offset)"),
+             Rw("for blob in blobs {", "for blob in it: blobs.iter() {", why="Verus for-loop syntax; iteration by reference"),
+         ],
+         contract="""
+    requires
+        // the lengths listed for one pack add up to less than 4 GiB (true for every pack file that can exist;
+        // a crafted index violating it makes `expected_offset += length` overflow: noted observation)
+        forall|s: Seq<IndexBlob>| #![auto] s.to_multiset() == p.blobs@.to_multiset() ==> start_of(s, s.len() as int) <= u32::MAX,
+    ensures
+        // speaks about runs that reported NO error: the (offset-sorted) blobs are homogeneous and lie back to back from 0
+        /*@no_error_implies_contiguous_homogeneous*/ exists|sorted: Seq<IndexBlob>| #![auto] sorted.to_multiset() == p.blobs@.to_multiset() && sorted_by_offset(sorted)
+              && forall|k: int| 0 <= k < sorted.len() ==> (#[trigger] sorted[k]).tpe == blob_type && sorted[k].location.offset as int == start_of(sorted, k),
+""",
+         loops={1: """
+                invariant
+                    expected_offset as int == start_of(blobs@, it.index@),
+                    start_of(blobs@, blobs@.len() as int) <= u32::MAX,
+                    forall|k: int| 0 <= k < it.index@ ==> (#[trigger] blobs@[k]).tpe == blob_type && blobs@[k].location.offset as int == start_of(blobs@, k),
+"""},
+         hints=[("loop_start", "1", "                proof { let k = it.index@; assert(blobs@[k] == *blob); lemma_start_mono(blobs@, k + 1, blobs@.len() as int); }")],
+         ),
+]
 KANI = []
-META = {"not_covered": []}
+META = {"not_covered": [
+    "completeness ('every damage is reported or harmless') and the link to restorability: whole-repository statements",
+    "check_trees (threaded tree walk), check_packs_list / check_packs_list_hot (BTreeMap bookkeeping), cache checks",
+    "panics of check_pack / check_packs on a crafted index whose size field or lengths are inconsistent (preconditions of the units)",
+]}
